@@ -1,4 +1,5 @@
 import SqlizeModel.Impl.Hash
+import SqlizeModel.Spec.HashSpec
 
 namespace Sqlize
 
@@ -38,10 +39,6 @@ theorem sortStrs_perm {l₁ l₂ : List String} (h : l₁.Perm l₂) : sortStrs 
   | cons x _ ih => simp [sortStrs, List.foldr_cons] at ih ⊢; rw [ih]
   | swap x y l => simp only [sortStrs, List.foldr_cons]; exact insertStr_comm y x _
   | trans _ _ ih1 ih2 => exact ih1.trans ih2
-
-/-- the table digest as a pure function of the md5 pre-images of its columns and indexes -/
-def tableHashOf (H : String → String) (colIn idxIn : List String) : String :=
-  H (";".intercalate (sortStrs (colIn.map H) ++ sortStrs (idxIn.map H)))
 
 theorem hashWith_eq (H : String → String) (g : Globals) (t : Table) (idxIn : List String)
     (h : t.idxs.mapM (Index.hashInput g) = .ok idxIn) :
